@@ -329,6 +329,17 @@ def parse_ecl10(data, game=None):
     r = R(data)
     if r.take(4) != b'SCPT': raise LayoutError('bad SCPT magic')
     r.i16(); inc_len = r.u16(); inc_off = r.u32(); r.u32(); nsubs = r.u32(); r.take(16)
+    # include section: 'ANIM' count strings.. (padded to 4) 'ECLI' count strings.. (padded to 4)
+    ir = R(data, inc_off)
+    includes = {}
+    for magic in (b'ANIM', b'ECLI'):
+        if ir.take(4) != magic: raise LayoutError('bad %s magic in include section' % magic.decode())
+        cnt = ir.u32(); lst = []; nbytes = 0
+        for _ in range(cnt):
+            st = cstring(data, ir.p); lst.append(st); ir.p += len(st) + 1; nbytes += len(st) + 1
+        ir.p += -nbytes % 4
+        includes[magic.decode().lower()] = lst
+    if ir.p != inc_off + inc_len: raise LayoutError('include section is %d bytes, header says %d' % (ir.p - inc_off, inc_len))
     r = R(data, inc_off + inc_len)
     offs = [r.u32() for _ in range(nsubs)]
     names = []
@@ -347,4 +358,4 @@ def parse_ecl10(data, game=None):
             if size < 16: raise LayoutError('bad ecl10 instr size')
             ins.append(Instr(offset=o, time=time, opcode=op, size=size, mask=mask, diff=diff, extra={'argc': argc, 'pop': pop}, blob=sr.take(size - 16)))
         subs.append({'name': names[i], 'offset': off, 'instrs': ins})
-    return {'subs': subs}
+    return {'subs': subs, 'anim': includes['anim'], 'ecli': includes['ecli']}
